@@ -1,1 +1,138 @@
-import MesaModel.Model.Copy
+import MesaModel.Proofs.Copy
+/-!
+# C19 — copies and pickles of cell spaces are faithful and detached   (partial: object identity is runtime)
+
+Two parts decide C19:
+* the **two-sided correspondence** (`harness/c19.py`, `Driver/Copy.lean`): the Lean side keeps the original and the
+  copy as two independent values of the C06/C07 cell-space model (so every theorem of C06/C07 holds for the copy's
+  state by construction), the implementation copies the real space; all later observations of both sides must agree
+  with the model, and the property's clauses (equal right after the copy, no shared objects, frame) are evaluated on
+  the implementation;
+* the theorems below, about the **identity-level model** (`Model/Copy.lean`) of what `Grid.__init__`,
+  `add/remove_property_layer`, `pickle_gridcell` / `unpickle_gridcell` and `Grid.__setstate__` do to class objects,
+  descriptor objects and layer objects — the mechanism that decides which array a cell attribute of the copy reads
+  and writes.  `run ops` ranges over all programs of `newGrid / addLayer / removeLayer / copy` (copies of copies
+  included; rejected calls leave the world unchanged).
+
+Not modelled: pickle's and deepcopy's own traversal and memo (trusted: each object is reconstructed once — the
+correspondence is what checks it, and it is where defect S22 lived).
+-/
+namespace Mesa.Copy
+
+/-- In every reachable world, for every space (original or copy of any generation) and every cell of it, reading or
+    writing the attribute `n` on the cell goes — through the descriptor on the cell's class — to layer object `l`
+    exactly when `(n, l)` is one of that space's own layers. -/
+theorem C19_cells_see_own_layers (ops : List Op) (sid : Nat) (sp : SpaceObj)
+    (h : (run ops).spaces sid = some sp) (c : CellObj) (hc : c ∈ sp.cells) (n : String) (l : Nat) :
+    resolve (run ops) c n = some l ↔ (n, l) ∈ sp.layers := by
+  have o := (good_run ops).ok sid sp h
+  unfold resolve
+  rw [o.cells_klass c hc]
+  exact o.descr_iff n l
+
+/-- Right after a copy, every cell of the copy resolves every layer name of the original to a layer object of the
+    copy that did not exist before (a fresh array), never to one of the original's. -/
+theorem C19_copy_sees_own_layers (ops : List Op) (sid : Nat) (sp : SpaceObj) (w' : World)
+    (hs : (run ops).spaces sid = some sp) (hc : copySpace (run ops) sid = .ok w') :
+    w'.spaces (run ops).nextSpace = some (copiedSpace (run ops) sp) ∧
+      ∀ c ∈ (copiedSpace (run ops) sp).cells, ∀ n ∈ sp.layers.map (·.1),
+        ∃ l, resolve w' c n = some l ∧ (n, l) ∈ (copiedSpace (run ops) sp).layers ∧
+          (run ops).nextLayer ≤ l ∧ ∀ j sj, (run ops).spaces j = some sj → ∀ q ∈ sj.layers, q.2 ≠ l := by
+  have g := good_run ops
+  unfold copySpace at hc
+  rw [hs] at hc
+  simp only [Except.ok.injEq] at hc
+  subst hc
+  refine ⟨by simp, ?_⟩
+  intro c hcm n hn
+  have hnames := freshLayers_names (sp.layers.map (·.1)) (run ops).nextLayer
+  have : n ∈ (freshLayers (sp.layers.map (·.1)) (run ops).nextLayer).map (·.1) := by rw [hnames]; exact hn
+  obtain ⟨p, hp, rfl⟩ := List.mem_map.mp this
+  have hr := freshLayers_range _ _ p hp
+  refine ⟨p.2, ?_, hp, hr.1, ?_⟩
+  · simp only [copiedSpace, List.mem_map] at hcm
+    obtain ⟨c0, _, rfl⟩ := hcm
+    have hnd : ((freshLayers (sp.layers.map (·.1)) (run ops).nextLayer).map (·.1)).Nodup := by
+      rw [hnames]; exact (g.ok sid sp hs).names_nodup
+    simp only [resolve, installAll, if_true, copiedSpace]
+    exact (lookup_iff_mem hnd p.1 p.2).mpr hp
+  · intro j sj hj q hq
+    have := (g.ok j sj hj).layer_lt q hq
+    omega
+
+/-- The copy is faithful in shape: the same cell coordinates in the same order, the same layer names in the
+    same order. -/
+theorem C19_copy_faithful (w w' : World) (sid : Nat) (sp : SpaceObj) (hs : w.spaces sid = some sp)
+    (hc : copySpace w sid = .ok w') :
+    w'.spaces w.nextSpace = some (copiedSpace w sp) ∧
+      (copiedSpace w sp).cells.map (·.coord) = sp.cells.map (·.coord) ∧
+      (copiedSpace w sp).layers.map (·.1) = sp.layers.map (·.1) := by
+  unfold copySpace at hc
+  rw [hs] at hc
+  simp only [Except.ok.injEq] at hc
+  subst hc
+  exact ⟨by simp, by simp [copiedSpace, Function.comp_def], freshLayers_names _ _⟩
+
+/-- Detached: in every reachable world two different spaces (an original and any of its copies, or two copies)
+    share neither their cell class — so no descriptor — nor any layer object. -/
+theorem C19_copy_detached (ops : List Op) (i j : Nat) (si sj : SpaceObj) (hij : i ≠ j)
+    (hi : (run ops).spaces i = some si) (hj : (run ops).spaces j = some sj) :
+    si.cellKlass ≠ sj.cellKlass ∧ (∀ p ∈ si.layers, ∀ q ∈ sj.layers, p.2 ≠ q.2) ∧
+    ∀ c ∈ si.cells, ∀ n l, resolve (run ops) c n = some l → ∀ q ∈ sj.layers, q.2 ≠ l := by
+  have g := good_run ops
+  obtain ⟨h1, h2⟩ := g.apart i j si sj hij hi hj
+  refine ⟨h1, h2, fun c hc n l hr q hq => ?_⟩
+  have := (C19_cells_see_own_layers ops i si hi c hc n l).mp hr
+  exact fun e => h2 (n, l) this q hq e.symm
+
+/-- the same as an invariant of single steps (useful for worlds not built by `run`) -/
+theorem C19_spaces_never_share {w : World} (g : Good w) (op : Op) : Good (step w op) := good_step g op
+
+/-- Copying leaves the original and every other existing space exactly as they were: same object, same cells, same
+    layers, and every attribute of every one of their cells resolves as before. -/
+theorem C19_original_untouched_by_copy (ops : List Op) (sid : Nat) (w' : World)
+    (hc : copySpace (run ops) sid = .ok w') (j : Nat) (sj : SpaceObj) (hj : (run ops).spaces j = some sj)
+    (hne : j ≠ (run ops).nextSpace) :
+    w'.spaces j = some sj ∧ ∀ c ∈ sj.cells, ∀ n, resolve w' c n = resolve (run ops) c n := by
+  have g := good_run ops
+  have o := g.ok j sj hj
+  unfold copySpace at hc
+  split at hc
+  · simp at hc
+  · simp only [Except.ok.injEq] at hc
+    subst hc
+    refine ⟨by simp [hne, hj], fun c hcm n => ?_⟩
+    have hk : c.klass ≠ (run ops).nextClass := by rw [o.cells_klass c hcm]; have := o.klass_lt; omega
+    simp [resolve, installAll, hk]
+
+/-- `add_property_layer` is rejected exactly when the name is already a layer of that space (or the space does not
+    exist), and a rejected call leaves the world unchanged. -/
+theorem C19_reject_unchanged (w : World) (sid : Nat) (name : String) :
+    ((∃ e, addLayer w sid name = .error e) ↔
+      (w.spaces sid = none ∨ ∃ sp, w.spaces sid = some sp ∧ (sp.layers.lookup name).isSome)) ∧
+    ((∃ e, addLayer w sid name = .error e) → step w (.addLayer sid name) = w) ∧
+    ((∃ e, removeLayer w sid name = .error e) → step w (.removeLayer sid name) = w) ∧
+    ((∃ e, copySpace w sid = .error e) → step w (.copy sid) = w) := by
+  refine ⟨?_, ?_, ?_, ?_⟩
+  · unfold addLayer
+    cases hs : w.spaces sid with
+    | none => simp
+    | some sp =>
+      simp only [reduceCtorEq, Option.some.injEq, exists_eq_left', false_or]
+      split <;> simp_all
+  · rintro ⟨e, h⟩; simp [step, h]
+  · rintro ⟨e, h⟩; simp [step, h]
+  · rintro ⟨e, h⟩; simp [step, h]
+
+/-! non-vacuity: a grid with an extra layer, copied twice (a copy of the copy), then a layer removed from the original -/
+section Example
+def exOps : List Op :=
+  [.newGrid [[0, 0], [0, 1], [1, 0], [1, 1]], .addLayer 0 "heat", .copy 0, .copy 1, .removeLayer 0 "heat", .addLayer 0 "empty"]
+example : ((run exOps).spaces 2).map (fun sp => (sp.cellKlass, sp.layers, sp.cells.length)) =
+    some (5, [("empty", 4), ("heat", 5)], 4) := by decide
+example : resolve (run exOps) ⟨[1, 1], 5⟩ "heat" = some 5 := by decide
+example : ((run exOps).spaces 0).map (·.layers) = some [("empty", 0)] := by decide
+example : ((run exOps).spaces 1).map (·.layers) = some [("empty", 2), ("heat", 3)] := by decide
+end Example
+
+end Mesa.Copy
